@@ -15,13 +15,13 @@ import codec_common as cc
 
 def run(ctx):
     ctx.assumptions += cc.ASSUMPTIONS
+    mcjob = cc.Background(cc.mc_codec, ctx, cc.static_consts(), part="pairs")   # design check, runs next to the Go build
     binp = cc.build(ctx)
     k, reg = cc.consts(ctx, binp)
     names = cc.schema_types(ctx, k)
     missing = [n for n in names if n not in reg]
     if missing:
         raise vf.Infra("schema types without a Go registry entry: %s" % missing)
-    cc.mc_codec(ctx, k, part="pairs")
     if ctx.replay:
         # a persisted rt record is replayed from its byte side: every recorded encoding is decoded and re-encoded by the
         # current tree and judged like a C13 'valid' case (value, consumed count and re-encoding must be the specified ones)
@@ -35,6 +35,7 @@ def run(ctx):
         ctx.cov["evaluations"] = len(lines)
         ctx.cov["rule"] = "replay of recorded encodings"
         vf.validate_trace(ctx, "Codec_Trace", cc.shard_by_size(lines), constants=cc.trace_constants(k), what="replayed encoding does not round-trip")
+        mcjob.join()
         return
     else:
         tracep = ctx.tmp + "/trace.ndjson"
@@ -57,6 +58,7 @@ def run(ctx):
     ctx.cov["samples"] = [{kk: (vv if kk != "v" and kk != "dec" else "...") for kk, vv in json.loads(x).items()} for x in lines[:3] if len(x) < 4000]
     bad = vf.validate_trace(ctx, "Codec_Trace", cc.shard_by_size(lines), constants=cc.trace_constants(k), timeout=1500, heap="3g",
                             par=6 if ctx.quick else 12, what="codec round trip / determinism fails")
+    mcjob.join()
     skipped = [w for w, _ in ctx.violations if "generated_value_not_wellformed" in w]
     if skipped:
         raise vf.Infra("the driver generated values the schema calls ill-formed: %s" % skipped[:2])
